@@ -157,7 +157,7 @@ def write_cfgs(active):
 
 
 def scenarios(tier, scen_cfg):
-    hs = vf.tlc_scenarios(PID, "Scen_Robustness", scen_cfg, exhaustive=True, timeout=600)
+    hs = vf.tlc_scenarios(PID, "Scen_Robustness", scen_cfg, exhaustive=True, timeout=1200, heap="2g")
     calls = [h[0] for h in hs if isinstance(h, list) and h and h[0].get("ev") == "Call"]
     calls.sort(key=lambda c: (c["ep"], json.dumps(c["shape"], sort_keys=True)))
     if tier == "quick":
@@ -179,8 +179,9 @@ def scenarios(tier, scen_cfg):
 
 # quick tier: share of the lattice points of an entry point whose histories are run (seeded); the degenerate
 # relay-key / relay-address / document shapes whose first call can leave something behind are always kept
-QUICK_SEQ = {"attester": 0.34, "proposalbest": 0.15, "graffiti": 0.25, "submitclassify": 0.25, "execservice": 0.35,
-             "proposer": 0.4, "mergeduties": 0.6, "syncmessenger": 0.6, "builderbid": 0.35}
+QUICK_SEQ = {"attester": 0.2, "proposalbest": 0.15, "graffiti": 0.25, "submitclassify": 0.25, "execservice": 0.3,
+             "proposer": 0.4, "mergeduties": 0.6, "syncmessenger": 0.45, "builderbid": 0.25, "aggregator": 0.5,
+             "syncaggregator": 0.5, "cacheevents": 0.5}
 QUICK_OVERLAP = 0.12
 QUICK_RANDOM = 60
 THOROUGH_RANDOM = 400
@@ -213,8 +214,8 @@ def histories(tier, cfgs):
     nrandom = QUICK_RANDOM if tier == "quick" else THOROUGH_RANDOM
     with ThreadPoolExecutor(max_workers=1) as ex:     # the random histories are generated next to the enumerated ones
         fr = ex.submit(vf.tlc_scenarios, PID, "Scen_RobustnessInst", cfgs["Scen_RobustnessInst_random"], num=nrandom, depth=8,
-                       name="scen-inst-random", timeout=300)
-        r = vf.tlc(PID, "scen-inst", "Scen_RobustnessInst", cfgs["Scen_RobustnessInst"], workers=1, timeout=600, aseed=vf.seed())
+                       name="scen-inst-random", timeout=900, heap="2g")
+        r = vf.tlc(PID, "scen-inst", "Scen_RobustnessInst", cfgs["Scen_RobustnessInst"], workers=1, timeout=1200, aseed=vf.seed(), heap="3g")
         rs = fr.result()
     if r["timed_out"] or r["kind"] in ("invariant", "action_property", "error", "deadlock"):
         raise vf.Broken("history generation failed (%s %s):\n%s" % (r["kind"], r["violated"], r["out"][-3000:]))
@@ -517,7 +518,7 @@ def self_checks(v):
     def one(job):
         module, name = job
         return job, vf.tlc(PID, "%s-%s" % (short[module], name), module,
-                           "MC_%s_%s.cfg" % (module, name), workers=2, timeout=300)
+                           "MC_%s_%s.cfg" % (module, name), workers=2, timeout=900, heap="1g")
     jobs = [(m, n) for m in sorted(tables) for n in sorted(tables[m])]
     res = {m: {} for m in tables}
     with ThreadPoolExecutor(max_workers=6) as ex:
@@ -553,10 +554,11 @@ def run(tier):
     if tier == "thorough":
         mcs = [("Robustness", "MC_Robustness.cfg", 900), ("RobustnessInst", "MC_RobustnessInst_big.cfg", 1500)]
     else:
-        mcs = [("Robustness", "MC_Robustness.cfg", 900), ("RobustnessInst", "MC_RobustnessInst.cfg", 900),
-               ("RobustnessInst", "MC_RobustnessInst_live.cfg", 900)]
+        # (time-outs: the machine may be heavily shared; a quiet one needs 10-30 s for each)
+        mcs = [("Robustness", "MC_Robustness.cfg", 1500), ("RobustnessInst", "MC_RobustnessInst.cfg", 1500),
+               ("RobustnessInst", "MC_RobustnessInst_live.cfg", 1500)]
     with ThreadPoolExecutor(max_workers=8) as ex:
-        fm = [ex.submit(vf.tlc_exhaustive, PID, m, c, 4, to, "6g", tier == "thorough" and m == "Robustness") for m, c, to in mcs]
+        fm = [ex.submit(vf.tlc_exhaustive, PID, m, c, 4, to, "6g" if tier == "thorough" else "3g", tier == "thorough" and m == "Robustness") for m, c, to in mcs]
         fs = ex.submit(self_checks, v)
         fl = ex.submit(scenarios, tier, cfgs["Scen_Robustness"])
         fb = ex.submit(build)
